@@ -249,7 +249,7 @@ def replay(payload):
 
 def run(tier, seed):
     res = Result("C11")
-    res.functions = ["xeofs.single.eof_rotator:EOFRotator.__init__", "EOFRotator._fit_algorithm", "EOFRotator._compute_rot_mat_inv_trans",
+    res.functions = ["xeofs.cross.cpcca_rotator:CPCCARotator._fit_algorithm/_sort_by_variance/transform/_compute_rot_mat_inv_trans (+ inherited CPCCA._inverse_transform_algorithm)", "xeofs.single.eof_rotator:EOFRotator.__init__", "EOFRotator._fit_algorithm", "EOFRotator._compute_rot_mat_inv_trans",
                      "EOFRotator._post_compute", "EOFRotator._sort_by_variance", "EOFRotator._transform_algorithm",
                      "xeofs.single.eof:EOF.explained_variance", "xeofs.data_container.data_container:DataContainer.add"]
     res.functions += ["xeofs.linalg.rotation:promax", "xeofs.linalg._numpy._rotation:_promax", "xeofs.linalg._numpy._rotation:_varimax"]
@@ -257,12 +257,14 @@ def run(tier, seed):
                        "kernel assumptions: eps stabiliser read as 0, no zero row / column in the loadings (communalities and column maxima > 0), the matrices the kernel inverts are invertible, np.linalg.svd contract",
                        "precondition: retained singular values > 0 and rotated loadings have non-zero columns (the code divides by them)",
                        "argsort_dask / np.linalg.inv / sign-multiplier contracts assumed", "float arithmetic exact; machine-eps stabilisers in _varimax/_promax read as 0",
-                       "cross-set rotators (CPCCARotator family): bounded only"]
+                       "cross-set rotators: the real CPCCARotator is traced with the base model under its contract (scores_i = whitened input_i times Q_i, s > 0), fitted whiteners (T Hermitian invertible) or none, PCA off; with PCA on: bounded only"]
     res.trusted = ["CPython on proxies", "vf/sym normaliser", "z3", "xarray semantics as modelled"]
     agg = Agg(res, "C11")
     deductive(res, agg)
     from vf.contracts import rotkernel
     rotkernel.obligations(res, agg)
+    from vf.contracts import crossrot
+    crossrot.obligations(res, agg, ("C11",))      # the real CPCCARotator traced against its callees' contracts
     agg.flush()
     run_bounded(res, tier, seed)
     return res
